@@ -456,7 +456,7 @@ fn assumptions(p: &str) -> Vec<String> {
         v.push("JSON equality: a null member equals an absent member; numbers compare by exact value (no rounding)".into());
     }
     if p == "C13" {
-        v.push("subjects are messages the library itself parses from MT text (format-valid, rule-violating or not); a panic inside an operation is reported as a discarded run (C07 territory), not as a C13 violation".into());
+        v.push("subjects are messages the library itself parses from MT text (format-valid, rule-violating or not) and, one in four, messages built in memory by deserialising a mutated scenario draw (judged through the direct entry points; through the plugin only when their text parses back to exactly the same message); a panic inside an operation is reported as a discarded run (C07 territory), not as a C13 violation".into());
     }
     if p == "C16" {
         v.push("texts the independent line tokeniser cannot segment unambiguously are discarded and counted; messages stay below 65 536 fields (16-bit field counter inside the position stamp)".into());
@@ -646,6 +646,7 @@ fn main() {
             }
             // valid published messages (for the C15 micro mode): the shortest valid draw of every message type
             let mut valid: Vec<(usize, Value)> = vec![];
+            let mut publish: Vec<Value> = vec![];
             {
                 let clock = ClockCfg::plain();
                 let ctx = clock.ctx(derive(base, "export/valid", 0));
@@ -653,21 +654,76 @@ fn main() {
                 let r = on_fresh_thread(move || {
                     let _a = seam::attach(&ctx);
                     let mut best: BTreeMap<String, (usize, String)> = BTreeMap::new();
+                    let mut classes: BTreeMap<String, (usize, String, String)> = BTreeMap::new();
                     for sc in &scs {
                         let Some(g) = datafake_rs::DataGenerator::from_value(sc.value.clone()).ok().and_then(|g| g.generate().ok()) else { continue };
                         let Ok(text) = mt::json_to_text(&sc.mt, &g) else { continue };
                         let Ok(p) = mt::parse_auto(&text) else { continue };
+                        if std::env::var("MTSIM_EXPORT_DEBUG").is_ok() && text.contains("JPY") {
+                            eprintln!("DEBUG {} len={} findings={} {:?}", sc.rel, text.len(), mt::vnr(&p, false).len(), text.lines().filter(|l| l.contains("JPY")).collect::<Vec<_>>());
+                        }
                         if !mt::vnr(&p, false).is_empty() {
                             continue;
+                        }
+                        // amount classes for the publish mode: "CCC<digits>,<decimals>" with no / two non-zero / three decimals
+                        let b = text.as_bytes();
+                        for i in 3..b.len() {
+                            if b[i].is_ascii_digit() && b[i - 3..i].iter().all(|c| c.is_ascii_uppercase()) && (i < 4 || !b[i - 4].is_ascii_uppercase()) {
+                                let mut j = i;
+                                while j < b.len() && b[j].is_ascii_digit() {
+                                    j += 1;
+                                }
+                                if j - i >= 3 && (j == b.len() || b[j] == b'\n' || b[j] == b'\r') && i >= 4 && (b[i - 4] == b':' || b[i - 4].is_ascii_digit()) && text[..i].rfind('\n').is_some_and(|q| text[q + 1..].starts_with(":3")) {
+                                    // ":32B:JPY10000" — a currency without minor unit is written without a comma
+                                    let e = classes.entry(format!("no-decimals/{}", &text[i - 3..i])).or_insert((usize::MAX, String::new(), String::new()));
+                                    if text.len() < e.0 {
+                                        *e = (text.len(), sc.mt.clone(), text.clone());
+                                    }
+                                }
+                                if j < b.len() && b[j] == b',' {
+                                    let mut k = j + 1;
+                                    while k < b.len() && b[k].is_ascii_digit() {
+                                        k += 1;
+                                    }
+                                    let dec = &text[j + 1..k];
+                                    let class = match dec.len() {
+                                        0 => Some("comma-no-decimals"),
+                                        2 if dec != "00" => Some("fraction-2"),
+                                        3 if dec != "000" => Some("fraction-3"),
+                                        _ => None,
+                                    };
+                                    if let Some(c) = class {
+                                        let e = classes.entry(format!("{c}/{}", &text[i - 3..i])).or_insert((usize::MAX, String::new(), String::new()));
+                                        if text.len() < e.0 {
+                                            *e = (text.len(), sc.mt.clone(), text.clone());
+                                        }
+                                    }
+                                }
+                            }
                         }
                         let e = best.entry(sc.mt.clone()).or_insert((usize::MAX, String::new()));
                         if text.len() < e.0 {
                             *e = (text.len(), text);
                         }
                     }
-                    best
+                    (best, classes)
                 });
-                if let Ok(best) = r {
+                if let Ok((best, classes)) = r {
+                    // per amount class the shortest text (≤ 1500 bytes), at most two currencies per class
+                    let mut per: BTreeMap<String, Vec<(usize, String, String, String)>> = BTreeMap::new();
+                    for (k, (len, mtt, text)) in classes {
+                        if len <= 1500 {
+                            per.entry(k.split('/').next().unwrap_or("").to_string()).or_default().push((len, k, mtt, text));
+                        }
+                    }
+                    for (_, mut v) in per {
+                        v.sort();
+                        for (_, k, mtt, text) in v.into_iter().take(2) {
+                            if !publish.iter().any(|p: &Value| p["text"] == text) {
+                                publish.push(json!({"class": k, "mt": mtt, "text": text}));
+                            }
+                        }
+                    }
                     for (mtt, (len, text)) in best {
                         valid.push((len, json!({"mt": mtt, "text": text})));
                     }
@@ -676,8 +732,8 @@ fn main() {
             // MT103 and MT101 first (the richest validators), then the 8 shortest of the other types
             valid.sort_by_key(|v| (!(v.1["mt"] == "103" || v.1["mt"] == "101"), v.0));
             let valid: Vec<Value> = valid.into_iter().filter(|v| v.0 <= 1000).take(10).map(|v| v.1).collect();
-            std::fs::write(out_path, serde_json::to_string_pretty(&json!({"multi_error": outv, "valid": valid})).unwrap()).unwrap_or_else(|e| die(&format!("{e}")));
-            println!("exported {} multi-error subjects and {} valid messages", outv.len(), valid.len());
+            std::fs::write(out_path, serde_json::to_string_pretty(&json!({"multi_error": outv, "valid": valid, "publish": publish})).unwrap()).unwrap_or_else(|e| die(&format!("{e}")));
+            println!("exported {} multi-error subjects, {} valid messages, {} publish subjects", outv.len(), valid.len(), publish.len());
         }
         "replay" => {
             let path = args.get(2).unwrap_or_else(|| die("usage: replay <file>"));
